@@ -123,6 +123,10 @@ func main() {
 		childSync(os.Args[2:])
 		return
 	}
+	if name == "child-api-lock" {
+		childAPILock(os.Args[2:])
+		return
+	}
 	if name == "replay" {
 		replayCmd(os.Args[2:])
 		return
